@@ -383,3 +383,56 @@ Definition model_init : init_src :=
     mkArm None IPrior ["v3.fit"; "v4"; "v5"; "v6"; "options=v8"] true ["v7 = v9"; "v10['hyp'] = v7"]];
   is_caught := ["LinAlgError"];
   is_inc := 1 |}.
+
+(* ---------- the restart of the hyper-parameters after a failed attempt, INTERPRETED for the noise coordinate ----------
+   The statements are pinned as text in rs_handler (position, surrounding calls); in addition the translator extracts the
+   five arithmetic expressions and this section says what they compute.  Scalars (one coordinate of the hyper-parameter
+   vector, the noise_log_scale one): [s] = the resampled start point (prior sample / slice sampler; None = the slice
+   sampler failed), [old] = the last start point handed in (hyp_gp[-1]), [nn] = the local noise_nudge before the failure,
+   [n0] = options["noise_nudge"][0] after defaulting, [lb] = the lower bound of noise_log_scale stored on tmp_gp. *)
+From Coq Require Import QArith.
+Inductive qexpr : Type :=
+| QNew | QOld | QNn | QNudge0 | QLb
+| QConst (q : Q)
+| QAdd (a b : qexpr)
+| QMul (a b : qexpr).
+Record qenv : Type := mkQE { e_new : Q; e_old : Q; e_nn : Q; e_n0 : Q; e_lb : Q }.
+Fixpoint qeval (e : qexpr) (v : qenv) : Q :=
+  match e with
+  | QNew => e_new v | QOld => e_old v | QNn => e_nn v | QNudge0 => e_n0 v | QLb => e_lb v
+  | QConst q => q
+  | QAdd a b => (qeval a v + qeval b v)%Q
+  | QMul a b => (qeval a v * qeval b v)%Q
+  end.
+Record restart_src : Type := mkRestart {
+  rr_sampler_key : string;     (* options[key] chooses the slice sampler, else a sample from the priors *)
+  rr_avg_some : qexpr;         (* if new_hyp is not None: new_hyp = <this> *)
+  rr_avg_none : qexpr;         (* else: new_hyp = <this> *)
+  rr_nn : qexpr;               (* noise_nudge = <this> *)
+  rr_lb : qexpr;               (* noise_bound = (<this>, noise_bound[1]), AFTER noise_nudge was updated *)
+  rr_noise : qexpr             (* new_hyp[0]["noise_log_scale"] = <this>, AFTER noise_nudge was updated *)
+}.
+(* one failed attempt: (start value of the noise coordinate handed to the next fit, noise_nudge, lower bound) *)
+Definition run_restart (r : restart_src) (s : option Q) (old nn n0 lb : Q) : Q * Q * Q :=
+  let new1 := match s with
+              | Some x => qeval (rr_avg_some r) (mkQE x old nn n0 lb)
+              | None => qeval (rr_avg_none r) (mkQE 0 old nn n0 lb)
+              end in
+  let nn' := qeval (rr_nn r) (mkQE new1 old nn n0 lb) in
+  let lb' := qeval (rr_lb r) (mkQE new1 old nn' n0 lb) in
+  (qeval (rr_noise r) (mkQE new1 old nn' n0 lb'), nn', lb').
+
+(* the hand-written reading *)
+Definition model_restart : restart_src :=
+  mkRestart "use_slice_sampler" (QMul (QConst (1 # 2)) (QAdd QNew QOld)) QOld (QAdd QNn QNudge0) (QAdd QLb QNn) (QAdd QNew QNn).
+Definition restart_spec (s : option Q) (old nn n0 lb : Q) : Q * Q * Q :=
+  let new1 := match s with Some x => ((1 # 2) * (x + old))%Q | None => old end in
+  let nn' := (nn + n0)%Q in
+  ((new1 + nn')%Q, nn', (lb + nn')%Q).
+(* f consecutive failures of one refit (the same nudge; [ss i] = the i-th resampled start point) *)
+Fixpoint restart_iter (r : restart_src) (ss : nat -> option Q) (old n0 : Q) (f : nat) (nn lb : Q) : Q * Q :=
+  match f with
+  | O => (nn, lb)
+  | S f' => let '(nn1, lb1) := restart_iter r ss old n0 f' nn lb in
+            let '(_, nn2, lb2) := run_restart r (ss f') old nn1 n0 lb1 in (nn2, lb2)
+  end.
